@@ -6,6 +6,10 @@ PROPS = {
                        explanation="C01_no_stuck_keys is proved by the inductive invariant Inv (MapperInv.v) for every accepted layout and every history incl. ill-formed events and release-all; correspondence observes the held set after every step (class HELD); the extracted checker K_C01 runs on the real outputs"),
     "C02": mapper_prop(["HELD"], ["C02"],
                        explanation="four theorems (justified, silenced key, release never presses, trigger consumed) from Inv; 'in effect' is the specification state's active list; extracted checkers K_C02_* run on the real outputs"),
+    "C03": mapper_prop(["EVENTS"], ["C03"],
+                       explanation="C03_last_listed_satisfied_mapping_fires: for every non-absorbing accepted layout and every history the fired mapping is the declarative last-listed satisfied one over the PHYSICALLY held keys (inp = phys proved), with the stated effects; extracted checkers K_C03_fire / K_C03_pass run on the real outputs"),
+    "C07": mapper_prop(["EVENTS"], ["C07"],
+                       explanation="C07_no_repeatable_key_held from Inv + fire_facts for every accepted layout and history; extracted checkers K_C07_held / K_C07_pressed run on the real outputs"),
     "C09": mapper_prop(["REPEAT"], ["C09"],
                        explanation="C09_repeat_exact is proved for every layout, state and event; the REPEAT observation of the real mapper is compared with the model on every explored transition"),
     "C19": mapper_prop(["EVENTS"], ["C19"],
